@@ -415,6 +415,22 @@ func genC18(c *hlib.Ctx) {
 		}
 		c.Do(ketLine(mode, rf, nq, eps, genSeriesList(r, r.Range(1, 20))), true)
 	}
+	// ketama, large rings: 65..130 endpoints in 2..4 zones, one or two sections per node
+	for i := 0; i < c.N(6, 60) && !gaveUp(); i++ {
+		l := largeLayout(r, i%2 == 1)
+		n := l.total()
+		rf := r.Range(1, 6)
+		for !l.canBalance(rf) {
+			rf--
+		}
+		eps := materialise(r, l, r.Range(1, 2))
+		c.Count("ket-gen:large:zones:" + strconv.Itoa(len(l)))
+		if i%3 == 2 {
+			c.Do(fmt.Sprintf("ketp %d %d %s %s %s", rf, rf, showEps(eps), showPerm(r.Perm(n)), showSeries(genSeriesList(r, 20))), true)
+		} else {
+			c.Do(ketLine("t", rf, rf, eps, genSeriesList(r, 20)), true)
+		}
+	}
 	// ketama, two orders of the endpoint list
 	for i := 0; i < c.N(150, 3000) && !gaveUp(); i++ {
 		l := pickLayout(r, ls, 12)
